@@ -14,6 +14,7 @@ fuzz_target!(|data: &[u8]| {
         None => vec![("a.pyxis".to_string(), text.to_string())],
     };
     let v = run_case_in_process(&Case { files, w, what: "fuzz".into() });
+    // inputs asking for > 65536 vftable slots are skipped inside run_case_in_process ("skipped-huge-table")
     if v["status"] == "panic" {
         eprintln!("PV-PANIC {}", v);
         std::process::abort();
